@@ -49,25 +49,28 @@ Definition cell_text (c : cell) : list Z :=
   end.
 
 (* ------------------------------------------------------------------ *)
-(* CSV writer                                                          *)
+(* CSV writer (after fix efda2f4)                                      *)
 (* ------------------------------------------------------------------ *)
-(* value.contains(COMMA) || value.contains(DQUOTE) || value.contains(LF) -- CR is not tested *)
-Definition csv_needs_quote (v : list Z) : bool := has 44 v || has 34 v || has 10 v.
+(* value.contains(COMMA) || value.contains(DQUOTE) || value.contains(LF) || value.contains(CR) *)
+Definition csv_needs_quote (v : list Z) : bool := has 44 v || has 34 v || has 10 v || has 13 v.
 (* value.replace(DQUOTE, DQUOTE DQUOTE) *)
 Definition csv_dq (v : list Z) : list Z := flat_map (fun b => if b =? 34 then [34; 34] else [b]) v.
+(* if needs quoting then DQUOTE doubled DQUOTE else as is: the same expression is written out
+   twice in the source, once for cells (format_csv_value) and once for column names (write_csv) *)
+Definition csv_quote (v : list Z) : list Z :=
+  if csv_needs_quote v then 34 :: csv_dq v ++ [34] else v.
 
 (* format_csv_value: NULL is the empty string *)
 Definition csv_field (c : cell) : list Z :=
   match c with
   | CNull => []
-  | _ => let v := cell_text c in
-         if csv_needs_quote v then 34 :: csv_dq v ++ [34] else v
+  | _ => csv_quote (cell_text c)
   end.
 
 (* writeln!(writer, values.join(COMMA)) *)
 Definition csv_line (r : list cell) : list Z := join [44] (map csv_field r) ++ [10].
-(* writeln!(writer, headers.join(COMMA)): header names are written raw *)
-Definition csv_header (cols : list (list Z)) : list Z := join [44] cols ++ [10].
+(* writeln!(writer, headers.join(COMMA)): header names follow the same quoting rule *)
+Definition csv_header (cols : list (list Z)) : list Z := join [44] (map csv_quote cols) ++ [10].
 
 (* at least one batch; rows of all batches in order *)
 Definition csv_doc (t : table) : list Z := csv_header (t_cols t) ++ flat_map csv_line (t_rows t).
@@ -79,15 +82,46 @@ Definition csv_shown (c : cell) : list Z := match c with CNull => [] | _ => cell
 Definition csv_displayed (t : table) : list (list (list Z)) :=
   t_cols t :: map (map csv_shown) (t_rows t).
 
+(* the writer BEFORE the fix (kept for the regression theorems): CR did not trigger quoting and
+   column names were written raw *)
+Definition csv_needs_quote_before_fix (v : list Z) : bool := has 44 v || has 34 v || has 10 v.
+Definition csv_field_before_fix (c : cell) : list Z :=
+  match c with
+  | CNull => []
+  | _ => let v := cell_text c in
+         if csv_needs_quote_before_fix v then 34 :: csv_dq v ++ [34] else v
+  end.
+Definition csv_line_before_fix (r : list cell) : list Z := join [44] (map csv_field_before_fix r) ++ [10].
+Definition csv_header_before_fix (cols : list (list Z)) : list Z := join [44] cols ++ [10].
+Definition csv_doc_before_fix (t : table) : list Z :=
+  csv_header_before_fix (t_cols t) ++ flat_map csv_line_before_fix (t_rows t).
+
 (* ------------------------------------------------------------------ *)
-(* JSON writer                                                         *)
+(* JSON writer (after fix 8d4c59c)                                     *)
 (* ------------------------------------------------------------------ *)
-Definition replace1 (x : Z) (by_ : list Z) (v : list Z) : list Z :=
-  flat_map (fun b => if b =? x then by_ else [b]) v.
-(* val.replace(BACKSLASH, BACKSLASH BACKSLASH).replace(DQUOTE, BACKSLASH DQUOTE): two passes, in
-   this order; nothing else is escaped *)
-Definition json_escape (s : list Z) : list Z := replace1 34 [92; 34] (replace1 92 [92; 92] s).
+Definition bytes_eqb := list_eqb Z.eqb.
+
+(* format!("{:04x}"): lowercase hexadecimal digit *)
+Definition hexdig (d : Z) : Z := if d <? 10 then 48 + d else 87 + d.
+(* fn json_escape: one match arm per line, in source order.  It iterates over chars; every char
+   >= U+0080 falls in the last arm and is pushed unchanged, i.e. its UTF-8 bytes (all >= 0x80)
+   are copied, so the byte-wise map is the same function on valid UTF-8. *)
+Definition json_esc_byte (b : Z) : list Z :=
+  if b =? 34 then [92; 34]
+  else if b =? 92 then [92; 92]
+  else if b =? 10 then [92; 110]
+  else if b =? 13 then [92; 114]
+  else if b =? 9 then [92; 116]
+  else if b =? 8 then [92; 98]
+  else if b =? 12 then [92; 102]
+  else if b <? 32 then [92; 117; 48; 48; hexdig (b / 16); hexdig (b mod 16)]
+  else [b].
+Definition json_escape (s : list Z) : list Z := flat_map json_esc_byte s.
 Definition json_string (s : list Z) : list Z := 34 :: json_escape s ++ [34].
+
+(* v.is_finite(): std prints exactly NaN, inf, -inf for the non-finite values *)
+Definition float_nonfinite (txt : list Z) : bool :=
+  bytes_eqb txt [78; 97; 78] || bytes_eqb txt [105; 110; 102] || bytes_eqb txt [45; 105; 110; 102].
 
 (* format_json_value *)
 Definition json_value (c : cell) : list Z :=
@@ -95,12 +129,12 @@ Definition json_value (c : cell) : list Z :=
   | CNull => [110; 117; 108; 108]
   | CStr s => json_string s
   | CInt n => int_dec n
-  | CFloat txt => txt
+  | CFloat txt => if float_nonfinite txt then [110; 117; 108; 108] else txt
   end.
 
-(* write!(writer, DQUOTE {} DQUOTE COLON SPACE {}, field_name, value): the name is written raw *)
+(* write!(writer, DQUOTE {} DQUOTE COLON SPACE {}, json_escape(field_name), value) *)
 Definition json_member (hc : list Z * cell) : list Z :=
-  34 :: fst hc ++ [34; 58; 32] ++ json_value (snd hc).
+  34 :: json_escape (fst hc) ++ [34; 58; 32] ++ json_value (snd hc).
 (* "  {" m1 ", " m2 ... "}" *)
 Definition json_row (cols : list (list Z)) (r : list cell) : list Z :=
   [32; 32; 123] ++ join [44; 32] (map json_member (combine cols r)) ++ [125].
@@ -108,6 +142,26 @@ Definition json_row (cols : list (list Z)) (r : list cell) : list Z :=
 Definition json_doc (t : table) : list Z :=
   [91; 10] ++ join [44; 10] (map (json_row (t_cols t)) (t_rows t)) ++ [10; 93; 10].
 Definition json_nobatch : list Z := [91; 93; 10].
+
+(* the writer BEFORE the fix (kept for the regression theorems): only backslash and DQUOTE were
+   escaped (two replace passes), member names were written raw, non-finite floats bare *)
+Definition replace1 (x : Z) (by_ : list Z) (v : list Z) : list Z :=
+  flat_map (fun b => if b =? x then by_ else [b]) v.
+Definition json_escape_before_fix (s : list Z) : list Z := replace1 34 [92; 34] (replace1 92 [92; 92] s).
+Definition json_string_before_fix (s : list Z) : list Z := 34 :: json_escape_before_fix s ++ [34].
+Definition json_value_before_fix (c : cell) : list Z :=
+  match c with
+  | CNull => [110; 117; 108; 108]
+  | CStr s => json_string_before_fix s
+  | CInt n => int_dec n
+  | CFloat txt => txt
+  end.
+Definition json_member_before_fix (hc : list Z * cell) : list Z :=
+  34 :: fst hc ++ [34; 58; 32] ++ json_value_before_fix (snd hc).
+Definition json_row_before_fix (cols : list (list Z)) (r : list cell) : list Z :=
+  [32; 32; 123] ++ join [44; 32] (map json_member_before_fix (combine cols r)) ++ [125].
+Definition json_doc_before_fix (t : table) : list Z :=
+  [91; 10] ++ join [44; 10] (map (json_row_before_fix (t_cols t)) (t_rows t)) ++ [10; 93; 10].
 
 (* ------------------------------------------------------------------ *)
 (* SPEC 1: RFC 4180 parser.  Records end with LF or CRLF (the last line break is optional),
@@ -158,7 +212,6 @@ Definition csv_records (l : list Z) : option (list (list (list Z))) :=
   match l with [] => Some [] | _ => c_fin (csv_go FS l) end.
 Definition csv_parse := csv_records.
 
-Definition bytes_eqb := list_eqb Z.eqb.
 Definition rec_eqb := list_eqb bytes_eqb.
 Definition recs_eqb := list_eqb rec_eqb.
 
@@ -439,13 +492,13 @@ Definition json_parse_doc (l : list Z) : option (list jobj) :=
   end.
 
 (* the values the JSON must denote: NULL -> null, string -> that string, number -> the number
-   whose text is displayed *)
+   whose text is displayed; JSON has no NaN / Infinity, they denote null *)
 Definition jval_of (c : cell) : jval :=
   match c with
   | CNull => JNull
   | CStr s => JStr s
   | CInt n => JNum (int_dec n)
-  | CFloat txt => JNum txt
+  | CFloat txt => if float_nonfinite txt then JNull else JNum txt
   end.
 Definition json_expected (t : table) : list jobj :=
   map (fun r => combine (t_cols t) (map jval_of r)) (t_rows t).
@@ -469,43 +522,27 @@ Definition json_spec_ok (t : table) (out : list Z) : bool :=
   end.
 
 (* ------------------------------------------------------------------ *)
-(* guards and the classes of inputs on which the faithful model fails  *)
+(* well-formedness and typing of a result table (no input is excluded) *)
 (* ------------------------------------------------------------------ *)
+(* at least one column, every row as wide as the header (RecordBatch invariant) *)
 Definition table_wf (t : table) : bool :=
   negb (nilb (t_cols t)) && forallb (fun r => Nat.eqb (length r) (length (t_cols t))) (t_rows t).
 
 (* no byte that RFC 4180 gives a meaning to *)
 Definition csv_plain (v : list Z) : bool := negb (has 44 v || has 34 v || has 10 v || has 13 v).
 
-(* a value with a carriage return that the writer leaves unquoted *)
-Definition known_cr_text (v : list Z) : bool := has 13 v && negb (csv_needs_quote v).
-Definition known_cr_cell (c : cell) : bool :=
-  match c with CNull => false | _ => known_cr_text (cell_text c) end.
-Definition known_cr (t : table) : bool := existsb (existsb known_cr_cell) (t_rows t).
-(* a column name that needs quoting (names are never quoted) *)
-Definition known_header (t : table) : bool := existsb (fun h => negb (csv_plain h)) (t_cols t).
-
-Definition csv_guard (t : table) : bool := table_wf t && negb (known_cr t) && negb (known_header t).
-
-(* a string with a control character (only backslash and quote are escaped) *)
-Definition known_json_control_str (s : list Z) : bool := existsb (fun b => b <? 32) s.
-Definition json_guard_str (s : list Z) : bool := forallb (fun b => 32 <=? b) s.
-Definition known_json_control_cell (c : cell) : bool :=
-  match c with CStr s => known_json_control_str s | _ => false end.
-Definition known_json_control (t : table) : bool := existsb (existsb known_json_control_cell) (t_rows t).
-(* a column name that needs escaping (names are never escaped) *)
-Definition json_name_ok (h : list Z) : bool := forallb (fun b => (32 <=? b) && negb (b =? 34) && negb (b =? 92)) h.
-Definition known_json_header (t : table) : bool := existsb (fun h => negb (json_name_ok h)) (t_cols t).
-(* a float whose Display text is not a JSON number (NaN, inf, -inf) *)
-Definition known_json_nonfinite_cell (c : cell) : bool :=
-  match c with CFloat txt => negb (json_number_ok txt) | _ => false end.
-Definition known_json_nonfinite (t : table) : bool := existsb (existsb known_json_nonfinite_cell) (t_rows t).
-
-(* Int64 columns hold i64 values *)
+(* strings are bytes; Int64 columns hold i64 values; a Float64 cell carries what std prints:
+   NaN / inf / -inf or a plain decimal number *)
+Definition bytes_ok (s : list Z) : bool := forallb (fun b => (0 <=? b) && (b <? 256)) s.
 Definition cell_typed (c : cell) : bool :=
-  match c with CInt n => (-9223372036854775808 <=? n) && (n <=? 9223372036854775807) | _ => true end.
-Definition table_typed (t : table) : bool := forallb (forallb cell_typed) (t_rows t).
+  match c with
+  | CNull => true
+  | CStr s => bytes_ok s
+  | CInt n => (-9223372036854775808 <=? n) && (n <=? 9223372036854775807)
+  | CFloat txt => float_nonfinite txt || json_number_ok txt
+  end.
+Definition table_typed (t : table) : bool :=
+  forallb bytes_ok (t_cols t) && forallb (forallb cell_typed) (t_rows t).
 
-Definition json_guard (t : table) : bool :=
-  table_wf t && table_typed t &&
-  negb (known_json_control t) && negb (known_json_header t) && negb (known_json_nonfinite t).
+Definition csv_guard (t : table) : bool := table_wf t.
+Definition json_guard (t : table) : bool := table_wf t && table_typed t.
